@@ -357,6 +357,21 @@ def catalogue(tier, rng, max_n=None):
             cat.append(Code("SystematicLinearBlockCodeEncoder", "P=%s,information_set=%s" % (P, tag),
                             (lambda P=P, iset=iset: E.SystematicLinearBlockCodeEncoder(torch.tensor(P, dtype=torch.float32), information_set=iset)),
                             {"P": P, "iset": tag}, tags=["systematic"]))
+    # low-dimension systematic codes whose information positions straddle coordinates 8 and 32 (hash-table boundaries of small-int sets)
+    for (n_, k_) in ((9, 3), (10, 3), (10, 4), (11, 4), (12, 3)) + (() if quick else ((36, 8), (34, 5), (13, 5), (9, 4))):
+        m_ = n_ - k_
+        P = [[rng.randint(0, 1) for _ in range(m_)] for _ in range(k_)]
+        for r_ in P:
+            if sum(r_) < 2:
+                r_[rng.randrange(m_)] = 1
+                r_[rng.randrange(m_)] = 1
+        cross = sorted(rng.sample(range(0, 8), k_ - 1) + [rng.randrange(8, n_)]) if n_ < 32 else sorted(rng.sample(range(0, 32), k_ - 1) + [rng.randrange(32, n_)])
+        for tag, iset in (("left", "left"), ("right", "right"), ("sorted%s" % cross, cross)):
+            cat.append(Code("SystematicLinearBlockCodeEncoder", "P=%s,information_set=%s" % (P, tag),
+                            (lambda P=P, iset=iset: E.SystematicLinearBlockCodeEncoder(torch.tensor(P, dtype=torch.float32), information_set=iset)),
+                            {"P": P, "iset": tag}, tags=["systematic"]))
+        G = [P[i] + [1 if j == i else 0 for j in range(k_)] for i in range(k_)]
+        cat.append(Code("LinearBlockCodeEncoder", "G=%s" % G, (lambda G=G: E.LinearBlockCodeEncoder(torch.tensor(G, dtype=torch.float32))), {"G": G}, tags=["generic"]))
     # generic: random full-rank non-systematic generators
     cnt = 0
     while cnt < (12 if quick else 100):
